@@ -1,7 +1,7 @@
 /-
 Search for the next irreducible polynomial (≙ gfpx.py `_next_irreducible`, finfields.py `find_irreducible`):
 the result is the monic irreducible polynomial with the least integer value above the argument
-AMONG THOSE WITH NONZERO CONSTANT TERM, i.e. other than `X` itself (the loop skips every multiple of `p`).
+(the loop skips the multiples of `p` other than `p` itself: those are the proper multiples of `X`).
 -/
 import MpycV.Lemmas.GFpXIrr
 import MpycV.Lemmas.GFpXInt
@@ -12,9 +12,9 @@ namespace MpycV.GFpX
 
 variable {p : ℕ}
 
-/-- what the loop of `_next_irreducible` accepts: monic, passes `_is_irreducible`, not a multiple of `p` -/
+/-- what the loop of `_next_irreducible` looks for: monic and passes `_is_irreducible` -/
 def Cand (p n : ℕ) : Prop :=
-  (digits p n).getLastD 0 = 1 ∧ isIrreducible p (digits p n) = true ∧ n % p ≠ 0
+  (digits p n).getLastD 0 = 1 ∧ isIrreducible p (digits p n) = true
 
 /-- a nonzero number is `lo + p^(L-1) * lead` with `lo < p^(L-1)` (`L` digits, leading digit `lead`) -/
 theorem digits_decomp (hp : 1 < p) {k : ℕ} (hk : k ≠ 0) :
@@ -58,68 +58,6 @@ theorem lead_ne_one (hp : 1 < p) {n m : ℕ} (hn : n ≠ 0) (hnm : n ≤ m)
   generalize p ^ ((Nat.digits p n).length - 1) = P at *
   omega
 
-/-- the search loop returns the least candidate above its start value -/
-theorem nextIrrLoop_spec (hp : 1 < p) : ∀ (f a : ℕ) (c : Poly), nextIrrLoop p f a = some c →
-    ∃ n, c = digits p n ∧ a < n ∧ Cand p n ∧ ∀ m, a < m → m < n → ¬ Cand p m := by
-  intro f
-  induction f with
-  | zero => intro a c h; simp [nextIrrLoop] at h
-  | succ f ih =>
-    intro a c h
-    rw [nextIrrLoop] at h
-    set a2 := if (a + 1) % p = 0 then a + 1 + 1 else a + 1 with ha2
-    have h_lt : a < a2 := by rw [ha2]; split <;> omega
-    have h_mod : a2 % p ≠ 0 := by
-      rw [ha2]; split
-      · rename_i h0
-        rw [Nat.add_mod, h0, zero_add, Nat.mod_mod, Nat.mod_eq_of_lt hp]; omega
-      · assumption
-    have h_skip : ∀ m, a < m → m < a2 → ¬ Cand p m := by
-      intro m h1 h2 hc
-      have : (a + 1) % p = 0 ∧ m = a + 1 := by
-        rw [ha2] at h2; split at h2
-        · rename_i h0; exact ⟨h0, by omega⟩
-        · omega
-      exact hc.2.2 (by rw [this.2]; exact this.1)
-    have ha20 : a2 ≠ 0 := by omega
-    split at h
-    · -- leading coefficient ≠ 1: jump to p^len
-      rename_i hlead
-      obtain ⟨n, hc, hn, hcand, hmin⟩ := ih _ _ h
-      rw [digits_eq hp] at hlead hn hmin
-      have hbound : a2 < p ^ (Nat.digits p a2).length := Nat.lt_base_pow_length_digits hp
-      refine ⟨n, hc, by omega, hcand, ?_⟩
-      intro m h1 h2 hcm
-      rcases Nat.lt_or_ge m a2 with h3 | h3
-      · exact h_skip m h1 h3 hcm
-      rcases Nat.lt_or_ge m (p ^ (Nat.digits p a2).length) with h4 | h4
-      · have := lead_ne_one hp ha20 h3 h4 hlead
-        rw [← digits_eq hp] at this
-        exact this hcm.1
-      rcases Nat.eq_or_lt_of_le h4 with h5 | h5
-      · have hL : (Nat.digits p a2).length ≠ 0 := by
-          intro h0
-          exact (Nat.digits_ne_nil_iff_ne_zero.mpr ha20) (List.length_eq_zero_iff.mp h0)
-        apply hcm.2.2
-        rw [← h5]
-        exact Nat.mod_eq_zero_of_dvd (dvd_pow_self p hL)
-      · exact hmin m h5 h2 hcm
-    · rename_i hlead
-      simp only [ne_eq, not_not] at hlead
-      split at h
-      · rename_i hirr
-        simp only [Option.some.injEq] at h
-        exact ⟨a2, h.symm, h_lt, ⟨hlead, hirr, h_mod⟩, h_skip⟩
-      · rename_i hirr
-        obtain ⟨n, hc, hn, hcand, hmin⟩ := ih _ _ h
-        refine ⟨n, hc, by omega, hcand, ?_⟩
-        intro m h1 h2 hcm
-        rcases Nat.lt_or_ge m a2 with h3 | h3
-        · exact h_skip m h1 h3 hcm
-        rcases Nat.eq_or_lt_of_le h3 with h5 | h5
-        · rw [← h5] at hcm; exact hirr hcm.2.1
-        · exact hmin m h5 h2 hcm
-
 /-! ### candidates, semantically -/
 
 theorem monic_iff_getLastD [Fact p.Prime] {d : Poly} (hd : WF p d) :
@@ -162,52 +100,113 @@ theorem toInt_mod_eq_zero_iff [Fact p.Prime] {d : Poly} (hd : WF p d) (hm : (toP
     exact natCast_ne_zero_of_lt hlt hne hc.symm
 
 theorem cand_toInt_iff [Fact p.Prime] {d : Poly} (hd : WF p d) :
-    Cand p (toInt p d) ↔
-      (toPoly p d).Monic ∧ Irreducible (toPoly p d) ∧ toPoly p d ≠ X := by
+    Cand p (toInt p d) ↔ (toPoly p d).Monic ∧ Irreducible (toPoly p d) := by
   have hp := (Fact.out : p.Prime).one_lt
   unfold Cand
   rw [digits_toInt hp hd, ← monic_iff_getLastD hd, isIrreducible_iff hd]
-  constructor
-  · rintro ⟨h1, h2, h3⟩
-    exact ⟨h1, h2, fun hX => h3 ((toInt_mod_eq_zero_iff hd h1 h2).mpr hX)⟩
-  · rintro ⟨h1, h2, h3⟩
-    exact ⟨h1, h2, fun h0 => h3 ((toInt_mod_eq_zero_iff hd h1 h2).mp h0)⟩
 
-/-- **next_irreducible**: whenever it returns, the result is well-formed, monic, irreducible, `≠ X`,
+theorem toInt_X : toInt p [0, 1] = p := by simp [toInt]
+
+/-- the multiples of `p` other than `p` itself (proper multiples of `X`) are never candidates:
+this is what the skip `if a % p == 0 and a != p: a += 1` relies on -/
+theorem not_cand_of_dvd [Fact p.Prime] {m : ℕ} (h0 : m % p = 0) (hne : m ≠ p) : ¬ Cand p m := by
+  have hp := (Fact.out : p.Prime).one_lt
+  intro hc
+  have hw := wf_digits hp m
+  have hm := toInt_digits hp m
+  rw [← hm] at hc h0
+  obtain ⟨h1, h2⟩ := (cand_toInt_iff hw).mp hc
+  have hX := (toInt_mod_eq_zero_iff hw h1 h2).mp h0
+  have : digits p m = [0, 1] := toPoly_inj hw wf_X (by rw [hX, toPoly_X])
+  rw [this, toInt_X] at hm
+  exact hne hm.symm
+
+/-- the search loop returns the least candidate above its start value -/
+theorem nextIrrLoop_spec [Fact p.Prime] : ∀ (f a : ℕ) (c : Poly), nextIrrLoop p f a = some c →
+    ∃ n, c = digits p n ∧ a < n ∧ Cand p n ∧ ∀ m, a < m → m < n → ¬ Cand p m := by
+  have hp := (Fact.out : p.Prime).one_lt
+  intro f
+  induction f with
+  | zero => intro a c h; simp [nextIrrLoop] at h
+  | succ f ih =>
+    intro a c h
+    rw [nextIrrLoop] at h
+    set a2 := if (a + 1) % p = 0 ∧ a + 1 ≠ p then a + 1 + 1 else a + 1 with ha2
+    have h_lt : a < a2 := by rw [ha2]; split <;> omega
+    have h_skip : ∀ m, a < m → m < a2 → ¬ Cand p m := by
+      intro m h1 h2
+      have : ((a + 1) % p = 0 ∧ a + 1 ≠ p) ∧ m = a + 1 := by
+        rw [ha2] at h2; split at h2
+        · rename_i h0; exact ⟨h0, by omega⟩
+        · omega
+      rw [this.2]
+      exact not_cand_of_dvd this.1.1 this.1.2
+    have ha20 : a2 ≠ 0 := by omega
+    split at h
+    · -- leading coefficient ≠ 1: jump to p^len - 1
+      rename_i hlead
+      obtain ⟨n, hc, hn, hcand, hmin⟩ := ih _ _ h
+      rw [digits_eq hp] at hlead hn hmin
+      have hbound : a2 < p ^ (Nat.digits p a2).length := Nat.lt_base_pow_length_digits hp
+      refine ⟨n, hc, by omega, hcand, ?_⟩
+      intro m h1 h2 hcm
+      rcases Nat.lt_or_ge m a2 with h3 | h3
+      · exact h_skip m h1 h3 hcm
+      rcases Nat.lt_or_ge m (p ^ (Nat.digits p a2).length) with h4 | h4
+      · have := lead_ne_one hp ha20 h3 h4 hlead
+        rw [← digits_eq hp] at this
+        exact this hcm.1
+      · exact hmin m (by omega) h2 hcm
+    · rename_i hlead
+      simp only [ne_eq, not_not] at hlead
+      split at h
+      · rename_i hirr
+        simp only [Option.some.injEq] at h
+        exact ⟨a2, h.symm, h_lt, ⟨hlead, hirr⟩, h_skip⟩
+      · rename_i hirr
+        obtain ⟨n, hc, hn, hcand, hmin⟩ := ih _ _ h
+        refine ⟨n, hc, by omega, hcand, ?_⟩
+        intro m h1 h2 hcm
+        rcases Nat.lt_or_ge m a2 with h3 | h3
+        · exact h_skip m h1 h3 hcm
+        rcases Nat.eq_or_lt_of_le h3 with h5 | h5
+        · rw [← h5] at hcm; exact hirr hcm.2
+        · exact hmin m h5 h2 hcm
+
+/-- **next_irreducible**: whenever it returns, the result is well-formed, monic, irreducible,
 has integer value above the argument, and is the least such polynomial in the integer order -/
 theorem nextIrreducible_spec [Fact p.Prime] {f : ℕ} {a c : Poly}
     (h : nextIrreducible p f a = some c) :
-    WF p c ∧ (toPoly p c).Monic ∧ Irreducible (toPoly p c) ∧ toPoly p c ≠ X ∧
-      toInt p a < toInt p c ∧
-      ∀ d, WF p d → (toPoly p d).Monic → Irreducible (toPoly p d) → toPoly p d ≠ X →
+    WF p c ∧ (toPoly p c).Monic ∧ Irreducible (toPoly p c) ∧ toInt p a < toInt p c ∧
+      ∀ d, WF p d → (toPoly p d).Monic → Irreducible (toPoly p d) →
         toInt p a < toInt p d → toInt p c ≤ toInt p d := by
   have hp := (Fact.out : p.Prime).one_lt
-  obtain ⟨n, hc, hn, hcand, hmin⟩ := nextIrrLoop_spec hp f (toInt p a) c h
+  obtain ⟨n, hc, hn, hcand, hmin⟩ := nextIrrLoop_spec f (toInt p a) c h
   have hw : WF p c := by rw [hc]; exact wf_digits hp n
   have hcn : toInt p c = n := by rw [hc, toInt_digits hp]
   rw [← hcn] at hcand hn
-  obtain ⟨m1, m2, m3⟩ := (cand_toInt_iff hw).mp hcand
-  refine ⟨hw, m1, m2, m3, hn, ?_⟩
-  intro d hd d1 d2 d3 hlt
+  obtain ⟨m1, m2⟩ := (cand_toInt_iff hw).mp hcand
+  refine ⟨hw, m1, m2, hn, ?_⟩
+  intro d hd d1 d2 hlt
   by_contra hcon
-  exact hmin (toInt p d) hlt (by omega) ((cand_toInt_iff hd).mpr ⟨d1, d2, d3⟩)
+  exact hmin (toInt p d) hlt (by omega) ((cand_toInt_iff hd).mpr ⟨d1, d2⟩)
 
 theorem toInt_fromInt_pred_pow [Fact p.Prime] (d : ℕ) :
     toInt p (fromInt p ((p ^ d - 1 : ℕ) : ℤ)) = p ^ d - 1 :=
   int_roundtrip (Fact.out : p.Prime).one_lt _
 
-/-- **find_irreducible(p, d)** (odd p): the least monic irreducible polynomial `≠ X` with integer value
+/-- **find_irreducible(p, d)** (odd p): the least monic irreducible polynomial with integer value
 `≥ p^d` (i.e. of degree ≥ d) -/
 theorem findIrreducible_spec [Fact p.Prime] {d f : ℕ} {c : Poly}
     (h : findIrreducible p d f = some c) :
-    WF p c ∧ (toPoly p c).Monic ∧ Irreducible (toPoly p c) ∧ toPoly p c ≠ X ∧ p ^ d ≤ toInt p c ∧
-      ∀ e, WF p e → (toPoly p e).Monic → Irreducible (toPoly p e) → toPoly p e ≠ X →
+    WF p c ∧ (toPoly p c).Monic ∧ Irreducible (toPoly p c) ∧ p ^ d ≤ toInt p c ∧
+      ∀ e, WF p e → (toPoly p e).Monic → Irreducible (toPoly p e) →
         p ^ d ≤ toInt p e → toInt p c ≤ toInt p e := by
   have hpos : 0 < p ^ d := Nat.pos_of_ne_zero (by
     have := (Fact.out : p.Prime).pos
     positivity)
-  obtain ⟨w, m1, m2, m3, hlt, hmin⟩ := nextIrreducible_spec h
+  obtain ⟨w, m1, m2, hlt, hmin⟩ := nextIrreducible_spec h
   rw [toInt_fromInt_pred_pow] at hlt hmin
-  exact ⟨w, m1, m2, m3, by omega, fun e he e1 e2 e3 hle => hmin e he e1 e2 e3 (by omega)⟩
+  exact ⟨w, m1, m2, by omega, fun e he e1 e2 hle => hmin e he e1 e2 (by omega)⟩
 
 end MpycV.GFpX
